@@ -250,6 +250,12 @@ def core_family(pid):
     s += [{"a": "incall", "cid": 2100}, {"a": "reply", "tag": 1, "cid": 2101}, {"a": "ack", "tag": 1, "code": 1}, {"a": "ack", "tag": 2, "code": 1}]
     s += [{"a": "recvReply", "g": "RR"}, {"a": "recvReply", "g": "RR"}, {"a": "recvCall", "g": "RC"}, {"a": "close"}]
     add("replyInboxFull", s)
+    # the same for the call inbox: 1030 incoming calls nobody fetches (the surplus is discarded by design) must not keep the replies and
+    # acks behind them from their callers; afterwards the first calls are handed over in arrival order
+    s = calls(["callWait", "call"]) + [{"a": "incall", "cid": 4000 + n} for n in range(1030)]
+    s += [{"a": "reply", "tag": 1, "cid": 5101}, {"a": "ack", "tag": 1, "code": 1}, {"a": "ack", "tag": 2, "code": 1}, {"a": "reply", "tag": 0, "cid": 5102}]
+    s += [{"a": "recvCall", "g": "RC"}, {"a": "recvCall", "g": "RC"}, {"a": "recvReply", "g": "RR"}, {"a": "close"}]
+    add("callInboxFull", s)
     # receives whose context is already done while calls / replies are waiting in the inboxes: a poll hands an item over or reports the
     # context error - it must never consume an item and report an error
     s = [{"a": "incall", "cid": 3000 + n} for n in range(5)] + [{"a": "reply", "tag": 0, "cid": 3100 + n} for n in range(4)] + [{"a": "sleep", "ms": 60}]
